@@ -809,28 +809,47 @@ func (t *transitiveClosure) addExtensions(
 	if !opts.includeKnownExtensions {
 		return nil // nothing to do
 	}
-	for e, mode := range t.elements {
-		if mode != inclusionModeExplicit {
-			// we only collect extensions for messages that are directly reachable/referenced.
-			continue
-		}
-		msgDescriptor, ok := e.(*descriptorpb.DescriptorProto)
-		if !ok {
-			// not a message, nothing to do
-			continue
-		}
-		descriptorInfo := imageIndex.ByDescriptor[msgDescriptor]
-		for _, extendsDescriptor := range imageIndex.NameToExtensions[descriptorInfo.fullName] {
-			if mode := t.elements[extendsDescriptor]; mode == inclusionModeExcluded {
-				// This extension field is excluded.
+	// addElement inserts into t.elements, so we must not range over the map while calling it:
+	// whether entries added during iteration are visited is unspecified. Instead, repeatedly
+	// collect the not yet processed messages in a deterministic order until none are left.
+	processed := make(map[*descriptorpb.DescriptorProto]struct{})
+	for {
+		var msgDescriptors []*descriptorpb.DescriptorProto
+		for e, mode := range t.elements {
+			if mode != inclusionModeExplicit {
+				// we only collect extensions for messages that are directly reachable/referenced.
 				continue
 			}
-			if err := t.addElement(extendsDescriptor, "", false, imageIndex, opts); err != nil {
-				return err
+			msgDescriptor, ok := e.(*descriptorpb.DescriptorProto)
+			if !ok {
+				// not a message, nothing to do
+				continue
+			}
+			if _, ok := processed[msgDescriptor]; ok {
+				continue
+			}
+			msgDescriptors = append(msgDescriptors, msgDescriptor)
+		}
+		if len(msgDescriptors) == 0 {
+			return nil
+		}
+		sort.Slice(msgDescriptors, func(i int, j int) bool {
+			return imageIndex.ByDescriptor[msgDescriptors[i]].fullName < imageIndex.ByDescriptor[msgDescriptors[j]].fullName
+		})
+		for _, msgDescriptor := range msgDescriptors {
+			processed[msgDescriptor] = struct{}{}
+			descriptorInfo := imageIndex.ByDescriptor[msgDescriptor]
+			for _, extendsDescriptor := range imageIndex.NameToExtensions[descriptorInfo.fullName] {
+				if mode := t.elements[extendsDescriptor]; mode == inclusionModeExcluded {
+					// This extension field is excluded.
+					continue
+				}
+				if err := t.addElement(extendsDescriptor, "", false, imageIndex, opts); err != nil {
+					return err
+				}
 			}
 		}
 	}
-	return nil
 }
 
 func (t *transitiveClosure) exploreCustomOptions(
